@@ -122,3 +122,50 @@ RULES["C11"] = ("matrix: fault kind (panic with &str/String/custom payload at to
 PLAN["C11"] = {"quick": [job("native", "matrix", 16, 900)],
                "thorough": [job("native", "matrix", 16, 3000), miri("matrix", 4, 2, 3000)],
                "min_evaluations": {"quick": 1000, "thorough": 1000}, "assumptions": COMMON_ASSUMPTIONS + ["deliberate overruns use a 250 ms busy handler against a 40 ms timeout"]}
+
+# ----------------------------------------------------------------------------- primitives behind the H2 wrappers
+PRIMITIVE_ASSUMPTIONS = [
+    "the verif_hooks wrappers (RawQueue, task::*, TimeCell) forward 1:1 to the crate-private primitives",
+    "thread interleavings are sampled: OS scheduling with seeded delays/yields at probe sites natively, Miri's seeded preemptive scheduler with weak-memory emulation under Miri; never enumerated",
+    "recorder stamps are a Relaxed fetch_add on one atomic (no synchronisation added); oracles that need 'stamp order implies visibility' are only applied on x86-64 real threads",
+]
+LEVEL["C12"] = "exploration"
+RULES["C12"] = ("seq: every sequence over {push, pop+release, pop+hold, release, close, len} up to the stated length on capacities 1-5 plus long random sequences on the real queue vs a VecDeque model; "
+                "conc: 1-3 producer threads pushing unique (producer, seq) values, one consumer that sometimes holds the borrowed slot, optional closer thread; history oracle: popped values were pushed, "
+                "no duplicate, none lost after drain, per-producer order, occupancy lower bound <= capacity at every stamp, Full only when capacity slots could be held (x86-64 real threads only), close semantics, "
+                "len() exact at quiescence; wakeup: capacity-1 DAG benches under MT with delays at channel probes, a stall/wrong delivery on a DAG is a lost wake-up; "
+                "non-trivial = sequence that hit Full or wrapped around (seq), history with Full results (conc), execution in which a handler ran while a sender was suspended (wakeup)")
+PLAN["C12"] = {"quick": [job("native", "seq", 16, 600), job("native", "conc", 16, 600), job("native", "wakeup", 16, 600), miri("conc", 4, 16, 900)],
+               "thorough": [job("native", "seq", 16, 3000), job("native", "conc", 16, 3000), job("native", "wakeup", 16, 3000),
+                            miri("conc", 8, 32, 3000), miri("seq", 1, 1, 3000), miri("wakeup", 4, 8, 3000),
+                            job("tsan", "conc", 8, 1800, args=["--scale", "0.1"]), job("tsan", "wakeup", 8, 1800, args=["--scale", "0.05"])],
+               "min_evaluations": {"quick": 1000, "thorough": 1000}, "assumptions": PRIMITIVE_ASSUMPTIONS,
+               "exhaustive_note": "part 'seq' enumerates every operation sequence of the length given in coverage.exhaustive_len"}
+LEVEL["C13"] = "exploration"
+RULES["C13"] = ("seq: every sequence over {run, drop runnable, clone waker, wake, wake_by_ref, drop waker, cancel, drop token, poll promise, drop promise} up to the stated length on the real task "
+                "primitives vs an abstract phase machine (whether a wake enqueues a runnable, what Promise::poll returns, drop counts of future and output), plus random sequences; conc: runner, waker, "
+                "canceller and promise-poller threads over shared tasks with delays at task probes; oracle: polls of one task never overlap, no poll after completion/cancellation, every wake issued "
+                "while pending is followed by a poll that begins after the wake call, future and output dropped exactly once; Miri/ASan add UB, race, leak and use-after-free detection; "
+                "non-trivial = distinct sequence (seq) / history with concurrent wakes and runs (conc)")
+PLAN["C13"] = {"quick": [job("native", "seq", 16, 600), job("native", "conc", 16, 600), miri("conc", 4, 16, 900)],
+               "thorough": [job("native", "seq", 16, 3000), job("native", "conc", 16, 3000), miri("conc", 8, 64, 3000), miri("seq", 1, 1, 3000),
+                            job("asan", "conc", 8, 1800, args=["--scale", "0.2"]), job("asan", "seq", 8, 1800, args=["--scale", "0.2"]),
+                            job("tsan", "conc", 8, 1800, args=["--scale", "0.1"])],
+               "min_evaluations": {"quick": 1000, "thorough": 1000}, "assumptions": PRIMITIVE_ASSUMPTIONS,
+               "exhaustive_note": "part 'seq' enumerates every operation sequence of the length given in coverage.exhaustive_len"}
+LEVEL["C15"] = "exploration"
+RULES["C15"] = ("cell: one writer publishing T_k = (secs k, nanos f(k)) with f injective into the real SyncCell<TearableAtomicTime> and 1-3 reader threads (read and try_read) with delays between the two halves "
+                "of the store; oracle: every value read is some T_k (untorn), each reader's sequence never decreases, a read after an Acquire load of a flag published after write k returns >= T_k; "
+                "public: Scheduler::time() polled from other threads while a simulation steps through distinctive (secs, nanos) times; non-trivial = case in which readers observed the value change")
+PLAN["C15"] = {"quick": [job("native", "cell", 16, 600), job("native", "public", 16, 600), miri("cell", 4, 32, 900)],
+               "thorough": [job("native", "cell", 16, 3000), job("native", "public", 16, 3000), miri("cell", 8, 128, 3000), miri("public", 2, 4, 3000),
+                            job("tsan", "cell", 8, 1800, args=["--scale", "0.1"])],
+               "min_evaluations": {"quick": 20, "thorough": 20}, "assumptions": PRIMITIVE_ASSUMPTIONS + ["Miri's weak-memory emulation covers a subset of C11 behaviours (no load buffering)"]}
+LEVEL["C17"] = "exploration"
+RULES["C17"] = ("model: every sequence over {write, read, open, close} up to the stated length on EventBuffer (capacities 1-4, initially open/closed) and EventSlot vs a VecDeque/Option model, plus long random "
+                "sequences with drains on capacities up to 64; order: generated DAG benches with sinks on ST / controlled ST / MT, the sub-sequence of events of one (model, output, connection) read from a "
+                "buffer must equal the sending order; non-trivial = sequence with an overflowing/overwriting write or a write ignored while closed (model), sink connection that carried >= 2 events (order)")
+PLAN["C17"] = {"quick": [job("native", "model", 16, 600), job("native", "order", 16, 600)],
+               "thorough": [job("native", "model", 16, 3000), job("native", "order", 16, 3000), miri("model", 1, 1, 3000), miri("order", 2, 4, 3000)],
+               "min_evaluations": {"quick": 1000, "thorough": 1000}, "assumptions": COMMON_ASSUMPTIONS + ["single-threaded access to a sink's reader side (concurrent reads of a slot are unspecified by the API)"],
+               "exhaustive_note": "part 'model' enumerates every operation sequence of the length given in coverage.exhaustive_len"}
